@@ -5,6 +5,7 @@
     entry points (run_step_groups, load_and_run_pipeline) are parameters ([rg], [rp]) of
     everything else, and the knot is tied on fuel at the end of the file. *)
 From PV Require Export Format.
+Require PV.Model.Merge.
 Open Scope string_scope.
 
 (** * Outcomes *)
@@ -36,6 +37,7 @@ Inductive body :=
 | BStop | BStopPipeline | BStopStepGroup
 | BCall | BJump | BSwitch
 | BSet | BClear | BClearAll
+| BMerge | BDefault            (* pypyr.steps.contextmerge / default, through Model/Merge.v *)
 | BPype.
 
 Record wcfg := mkw { w_max : option val; w_stop : option val; w_sleep : val; w_eom : val }.
@@ -319,11 +321,50 @@ Definition clear_step (s : st) : R :=
   | _ => (OUnsup, s)
   end).
 
+(** pypyr.steps.contextmerge / pypyr.steps.default: the merge model of C10 run on the
+    whole context (the incoming mapping lives inside it) *)
+Definition merge_step (is_merge : bool) (s : st) : R :=
+  let key := if is_merge then "contextMerge" else "defaults" in
+  let caller := if is_merge then "pypyr.steps.contextmerge" else "pypyr.steps.default" in
+  lift (assert_key_has_value s key caller) s (fun _ =>
+  match Merge.step_run is_merge FUEL FUEL (ctx s) with
+  | (Merge.SOk, m) => (OOk, set_ctx s (Merge.s_root m))
+  | (Merge.SErr n e, m) => raise_new n e (set_ctx s (Merge.s_root m))
+  | (Merge.SUnsup, _) => (OUnsup, s)
+  end).
+
+(** [shlex.split] for the plain case: words of printable non-blank characters separated
+    by single spaces, no quotes or escapes (anything else = outside the model) *)
+Fixpoint plain_word_chars (s : string) : bool :=
+  match s with
+  | EmptyString => true
+  | String c r =>
+      let n := nat_of_ascii c in
+      negb (Nat.leb n 32 || Nat.eqb n 34 || Nat.eqb n 39 || Nat.eqb n 92 || Nat.eqb n 35 || Nat.leb 127 n)
+      && plain_word_chars r
+  end.
+
+Definition simple_split (s : string) : option (list string) :=
+  let ws := split_on " "%char s EmptyString in
+  if forallb (fun w => negb (String.eqb w "") && plain_word_chars w) ws then Some ws else None.
+
+(** the harness context parser [vparser.get_parsed_context(args)] *)
+Definition vparse (args : list string) : res (option dict) :=
+  match args with
+  | "fail" :: _ => Err "ValueError" "parser boom"
+  | "none" :: _ => Ok None
+  | _ => Ok (Some [(VStr "parsed", VList (map VStr args)); (VStr "pflag", VBool true)])
+  end.
+
+Definition has_parser (pl : list (string * option (list step))) : bool :=
+  existsb (fun g => String.eqb (fst g) "context_parser") pl.
+
 (** * pype arguments (steps/pype.py get_arguments) *)
 Record pype_args := mkpa {
   pa_name : string; pa_args : option dict; pa_out : option val; pa_use_parent : bool;
   pa_raise : bool; pa_groups : option (list val); pa_success : option string;
-  pa_failure : option string }.
+  pa_failure : option string;
+  pa_parse : option (list string)        (* Some args = run the child's context parser on args *) }.
 
 Definition get_bool (d : dict) (k : string) (dflt : bool) : bool :=
   match sget k d with Some v => py_truth v | None => dflt end.
@@ -343,8 +384,14 @@ Definition get_arguments (s : st) : res pype_args :=
                         end) in
           let has_args := match args with Some (_ :: _) => true | _ => false end in
           let pipe_arg := match sget "pipeArg" d with Some v => py_truth v | None => false end in
-          if pipe_arg then Unsup else
-          let use_parent := if has_args && negb (shas "useParentContext" d) then false
+          let* pipe_args := (match sget "pipeArg" d with
+                             | Some (VStr x) => if pipe_arg then res_of_opt (simple_split x) else Ok []
+                             | Some v => if py_truth v then Unsup else Ok []
+                             | None => Ok []
+                             end) in
+          let skip_parse := if pipe_arg && negb (shas "skipParse" d) then false
+                            else get_bool d "skipParse" true in
+          let use_parent := if (has_args || pipe_arg) && negb (shas "useParentContext" d) then false
                             else get_bool d "useParentContext" true in
           let out := match sget "out" d with Some VNone | None => None | Some o => Some o end in
           if (match out with Some o => py_truth o | None => false end) && use_parent then
@@ -359,7 +406,8 @@ Definition get_arguments (s : st) : res pype_args :=
                           end) in
           let* su := opt_str (sget "success" d) in
           let* fa := opt_str (sget "failure" d) in
-          Ok (mkpa name args out use_parent (get_bool d "raiseError" true) groups su fa)
+          Ok (mkpa name args out use_parent (get_bool d "raiseError" true) groups su fa
+                   (if skip_parse then None else Some pipe_args))
       | _ => Unsup
       end
   | _ => Unsup
@@ -482,7 +530,7 @@ Section Engine.
   (** [StepsRunner.run_step_groups] of the CURRENT pipeline (re-entered by call and jump) *)
   Variable rg : list val -> option string -> option string -> st -> R.
   (** [Pipeline.load_and_run_pipeline] (re-entered by pype) *)
-  Variable rp : string -> option (list val) -> option string -> option string -> st -> R.
+  Variable rp : string -> option (list string) -> option (list val) -> option string -> option string -> st -> R.
 
   (** ** pypyr.steps.pype.run_step *)
   Definition pype_step (s : st) : R :=
@@ -499,11 +547,11 @@ Section Engine.
                 | Some ((_ :: _) as a) => set_ctx s (dict_update (ctx s) a)
                 | _ => s
                 end in
-      guard (rp (pa_name pa) (pa_groups pa) (pa_success pa) (pa_failure pa) s1)
+      guard (rp (pa_name pa) (pa_parse pa) (pa_groups pa) (pa_success pa) (pa_failure pa) s1)
     else
       let child0 := mkst (match pa_args pa with Some a => a | None => [] end) []
                          (trace s) (sleeps s) (next_eid s) (jit s) in
-      let '(o, child) := rp (pa_name pa) (pa_groups pa) (pa_success pa) (pa_failure pa) child0 in
+      let '(o, child) := rp (pa_name pa) (pa_parse pa) (pa_groups pa) (pa_success pa) (pa_failure pa) child0 in
       let parent := mkst (ctx s) (stack s) (trace child) (sleeps child) (next_eid child) (jit s) in
       guard (match o with
              | OOk =>
@@ -535,6 +583,8 @@ Section Engine.
     | BSet => set_step s
     | BClear => clear_step s
     | BClearAll => (OOk, set_ctx s [])
+    | BMerge => merge_step true s
+    | BDefault => merge_step false s
     | BPype => pype_step s
     end.
 
@@ -890,28 +940,61 @@ End Engine.
 Section Pipelines.
   Variable lib : library.
   Variable rg : list val -> option string -> option string -> st -> R.
+  (** [StepsRunner.run_failure_step_group] of the pipeline being started *)
+  Variable rfail : string -> st -> R.
 
-  (** [Pipeline._run_pipeline] (no context parser in the modelled pipelines) *)
-  Definition run_pipeline_inner (groups : option (list val)) (success failure : option string)
-             (s : st) : R :=
+  (** [Pipeline._prepare_context]: run the pipeline's context parser when asked to *)
+  Definition prepare_context (parser : bool) (parse : option (list string)) (s : st) : R :=
+    match parse with
+    | Some args =>
+        if parser then
+          lift (vparse args) s (fun parsed =>
+          match parsed with
+          | Some ((_ :: _) as d) => (OOk, set_ctx s (dict_update (ctx s) d))
+          | _ => (OOk, s)
+          end)
+        else (OOk, s)
+    | None => (OOk, s)
+    end.
+
+  (** [Pipeline._run_pipeline] *)
+  Definition run_pipeline_inner (parser : bool) (parse : option (list string))
+             (groups : option (list val)) (success failure : option string) (s : st) : R :=
     let no_groups := match groups with None | Some [] => true | _ => false end in
     let none_or_empty (o : option string) := match o with None | Some "" => true | _ => false end in
     let gs := if no_groups then [VStr "steps"] else match groups with Some g => g | None => [] end in
     let dflt := no_groups && none_or_empty success && none_or_empty failure in
     let su := if dflt then Some "on_success" else success in
     let fa := if dflt then Some "on_failure" else failure in
-    match rg gs su fa s with
-    | (ORaise (RSig SStopPipeline), s1) => (OOk, s1)
+    match prepare_context parser parse s with
+    | (OOk, s0) =>
+        match rg gs su fa s0 with
+        | (ORaise (RSig SStopPipeline), s1) => (OOk, s1)
+        | r => r
+        end
+    | (ORaise (RExn n m e), s0) =>
+        (* the parser failed: failure group once, StopStepGroup absorbed, original re-raised;
+           this is OUTSIDE the StopPipeline handler *)
+        match fa with
+        | Some (String _ _ as fg) =>
+            match rfail fg s0 with
+            | (ORaise (RSig SStopStepGroup), s1) | (OOk, s1) => (ORaise (RExn n m e), s1)
+            | (ORaise (RSig SStopPipeline), s1) => (OOk, s1)     (* ends this pipeline only *)
+            | r => r
+            end
+        | _ => (ORaise (RExn n m e), s0)
+        end
     | r => r
     end.
 
   (** [Pipeline.load_and_run_pipeline]: push on the call stack, run, pop in finally *)
-  Definition load_and_run (name : string) (groups : option (list val))
-             (success failure : option string) (s : st) : R :=
+  Definition load_and_run (name : string) (parse : option (list string))
+             (groups : option (list val)) (success failure : option string) (s : st) : R :=
     match find (fun p => String.eqb (fst p) name) lib with
     | None => (OUnsup, s)
-    | Some _ =>
-        let '(o, s1) := run_pipeline_inner groups success failure (set_stack s (name :: stack s)) in
+    | Some (_, pl) =>
+        let '(o, s1) := run_pipeline_inner (has_parser pl) parse groups success failure
+                                           (set_stack s (name :: stack s)) in
         (o, set_stack s1 (tl (stack s1)))
     end.
 End Pipelines.
@@ -920,21 +1003,39 @@ Fixpoint run_groups (fuel : nat) (lib : library) (groups : list val)
          (success failure : option string) (s : st) {struct fuel} : R :=
   match fuel with
   | O => (OUnsup, s)
-  | S f => groups_body lib (run_groups f lib)
-                       (fun name gs su fa s' => load_and_run lib (run_groups f lib) name gs su fa s')
-                       groups success failure s
+  | S f => groups_body lib (run_groups f lib) (run_pipe f lib) groups success failure s
+  end
+with run_pipe (fuel : nat) (lib : library) (name : string) (parse : option (list string))
+              (groups : option (list val)) (success failure : option string) (s : st)
+              {struct fuel} : R :=
+  match fuel with
+  | O => (OUnsup, s)
+  | S f => load_and_run lib (run_groups f lib)
+                        (run_failure lib (run_groups f lib) (run_pipe f lib))
+                        name parse groups success failure s
   end.
 
-Definition run_pipeline (fuel : nat) (lib : library) := load_and_run lib (run_groups fuel lib).
+Definition run_pipeline (fuel : nat) (lib : library) := run_pipe (S fuel) lib.
 
-(** [Pipeline.run] + [pipelinerunner.run]: Stop of any kind is caught at the root *)
-Definition api_run (fuel : nat) (lib : library) (name : string) (dict_in : dict)
+(** [Pipeline.run] + [pipelinerunner.run]: Stop of any kind is caught at the root.
+    [args_in]/[dict_none] decide parse_input as [Pipeline._get_parse_input] does. *)
+Definition api_parse (args_in : option (list string)) (dict_none : bool) : option (list string) :=
+  let args := match args_in with Some a => a | None => [] end in
+  if negb (is_nil args) || dict_none then Some args else None.
+
+Definition api_run_args (fuel : nat) (lib : library) (name : string) (args_in : option (list string))
+           (dict_none : bool) (dict_in : dict)
            (groups : option (list val)) (success failure : option string) (jitter : Q) : R :=
   let s0 := mkst dict_in [] [] [] 0 jitter in
-  match run_pipeline fuel lib name groups success failure s0 with
+  match run_pipeline fuel lib name (api_parse args_in dict_none) groups success failure s0 with
   | (ORaise (RSig SStop), s1) | (ORaise (RSig SStopPipeline), s1)
   | (ORaise (RSig SStopStepGroup), s1) => (OOk, s1)
   | r => r
   end.
+
+(** the common case: a dict is supplied, no arguments: the parser is not run *)
+Definition api_run (fuel : nat) (lib : library) (name : string) (dict_in : dict)
+           (groups : option (list val)) (success failure : option string) (jitter : Q) : R :=
+  api_run_args fuel lib name None false dict_in groups success failure jitter.
 
 Definition EFUEL : nat := 24.
